@@ -30,6 +30,9 @@ from .cfg import CFG, build_cfg
 from .explore import _UNKNOWN, Kind, eval_atom, is_kind, mk_kind
 from .model import AnalysisError, CallTarget, ClassInfo, FunctionInfo, Repo, bind_call
 
+import os
+
+_TRACE = os.environ.get("TLSA_TRACE")
 MAX_DEPTH = 5
 MAX_OVER = 8
 
@@ -92,6 +95,11 @@ class Fn(V):
 @dataclass(frozen=True)
 class Sym(V):
     d: object
+    c: object = None  # datum of the *container identity* alternatives (None: same as d)
+
+    @property
+    def cd(self):
+        return self.d if self.c is None else self.c
 
 
 @dataclass(frozen=True)
@@ -270,11 +278,11 @@ class Interp:
         return None
 
     def to_sym(self, v) -> V:
+        if isinstance(v, Sym):
+            return v
         d = self.datum(v)
         i = self._idents(v)
-        if i is not None:
-            d = self.dom.join_d(d, i)
-        return Sym(d)
+        return Sym(d, i if i is not None else self.dom.bottom())
 
     def _idents(self, v):
         dom = self.dom
@@ -305,7 +313,7 @@ class Interp:
         dom = self.dom
         if isinstance(a, Sym) or isinstance(b, Sym):
             sa, sb = self.to_sym(a), self.to_sym(b)
-            return Sym(dom.join_d(sa.d, sb.d))
+            return self._join_sym(sa, sb)
         if isinstance(a, Const) and isinstance(b, Const):
             return Leaf(dom.join_d(dom.const_d(a.c), dom.const_d(b.c)))
         if isinstance(a, (Leaf, Const)) and isinstance(b, (Leaf, Const)):
@@ -334,7 +342,15 @@ class Interp:
         if isinstance(b, Const) and b.c is None:
             return a
         sa, sb = self.to_sym(a), self.to_sym(b)
-        return Sym(dom.join_d(sa.d, sb.d))
+        return self._join_sym(sa, sb)
+
+    def _join_sym(self, sa: Sym, sb: Sym) -> Sym:
+        dom = self.dom
+        d = dom.join_d(sa.d, sb.d)
+        if sa.c is None and sb.c is None:
+            return Sym(d)
+        c = dom.join_d(sa.cd, sb.cd)
+        return Sym(d, None if c == d else c)
 
     def as_list(self, v) -> Lst:
         if isinstance(v, Lst):
@@ -384,7 +400,8 @@ class Interp:
         if isinstance(v, Dct):
             return v.value if v.value is not None else Sym(dom.bottom())
         if isinstance(v, Sym):
-            return v
+            r = dom.subscript(v, index, node, self) if index is not None else None
+            return r if r is not None else (Sym(v.d) if v.c is not None else v)
         if isinstance(v, Leaf):
             r = dom.subscript(v, index, node, self)
             return r if r is not None else v
@@ -529,6 +546,10 @@ class Interp:
                         if it.optional_vars is not None:
                             self.assign(it.optional_vars, Sym(self.datum(cv)), out_env, f, node.ast)
                 elif node.kind == "return":
+                    if _TRACE and _TRACE == f.name:
+                        print(f"TRACE {f.qname} return@{node.lineno}:")
+                        for k_, v_ in sorted(out_env.items()):
+                            print("    ", k_, "=", v_)
                     val = self.eval(node.ast.value, out_env, f) if node.ast.value is not None else NONE
                     self.dom.on_return(f, val, node.ast, self)
                     rets = self.join(rets, val) if rets is not None else val
@@ -1273,6 +1294,15 @@ class Interp:
             return Sym(self.datum(recv))
         if isinstance(recv, Fn):
             return Sym(dom.bottom())
+        if isinstance(recv, (Sym, Leaf)) and f is not None:
+            ct = self.repo.resolve_call(f, f.module, call)
+            if ct.kind == "repo" and ct.cha and len(ct.funcs) == 1:
+                m = ct.funcs[0]
+                self.calls_resolved += 1
+                a = self.bind(m, call, True, env, f, Obj(m.cls.qname, self.dom.container_ident(call, self), ()))
+                res = self.call_function(m, a, call)
+                self.merge_effects(res)
+                return res.ret
         r = dom.method(name, recv, args, kwargs, call, self)
         if r is not None:
             if isinstance(r, tuple):
